@@ -9,8 +9,7 @@ Pass 2: the real command line entry `pdpy11._cli.main_cli()` run *in process* un
 Pass 3 (sample, see c08.py): the real CLI in a subprocess on real files.
 
 Resource bound of G (harness-side instrumentation, nothing in /repo is touched): a text that makes the assembler
-compile more than MAX_STMTS statements (counting `.repeat`/`.include` multiplicity), shift by more than MAX_SHIFT bits,
-build an integer of more than MAX_BITS bits or write an expression with more than MAX_OPERATORS operators is *out of
+compile more than MAX_STMTS statements (counting `.repeat`/`.include` multiplicity), build an integer of more than MAX_BITS bits or write an expression with more than MAX_OPERATORS operators is *out of
 domain*: it is counted, never judged.  Counts, sizes, alignments, addresses and include depth are NOT bounded by the
 harness (since fixes 347eeb8 / 5b48d07 / 83e4c6e the assembler itself must refuse the absurd ones); worker processes
 run under RLIMIT_AS = 2 GB so that memory exhaustion is an observed outcome (class crash: MemoryError).
@@ -26,7 +25,6 @@ import traceback
 import impl
 
 MAX_STMTS = 70000     # above the assembler's own MAX_REPETITIONS (2**16): a text cannot reach it through one .repeat nest any more
-MAX_SHIFT = 4096
 MAX_BITS = 1 << 20
 MAX_OPERATORS = 64       # operators in one expression
 ROOT = "/c08"            # virtual directory of the in-memory file system
@@ -93,20 +91,6 @@ def _install():
     ops = m["operators"]
     wait = m["deferred"].wait
     BaseDeferred = m["deferred"].BaseDeferred
-
-    def guard_shift(cls):
-        orig = cls.fn
-
-        def fn(*args):
-            b = args[-1]
-            if isinstance(b, BaseDeferred):
-                b = wait(b)          # what the operator itself does first; settles the same object
-            if isinstance(b, int) and abs(b) > MAX_SHIFT:
-                raise WorkLimit("shift-count")
-            return orig(*args)
-        cls.fn = fn
-    for cls in (ops.lshift, ops.rshift, ops.lsh):
-        guard_shift(cls)
 
     def guard_size(cls):
         orig = cls.fn
